@@ -1,0 +1,68 @@
+//go:build verif
+
+package vuego
+
+import "sync/atomic"
+
+// Monitoring hook points (build tag "verif"). A monitor installs one function
+// that is called at every point with two point-specific integers; it may
+// count, assert an invariant, delay the calling goroutine (failpoint) or abort
+// the case by panicking with its own sentinel.
+const (
+	vpCacheHit = iota
+	vpCacheMiss
+	vpCacheStore
+	vpFMMerge
+	vpVOnceAssign
+	vpPathMiss
+	vpPathStore
+	vpExprMiss
+	vpExprStore
+	vpPoolGet
+	vpPoolPut
+	vpBufGet
+	vpEvalEnter
+	vpIncludeEnter
+	vpSerializeNode
+	vpLayoutIter
+	vpSlotEnter
+)
+
+// Exported names of the hook points for monitors.
+const (
+	VerifCacheHit      = vpCacheHit
+	VerifCacheMiss     = vpCacheMiss
+	VerifCacheStore    = vpCacheStore
+	VerifFMMerge       = vpFMMerge
+	VerifVOnceAssign   = vpVOnceAssign
+	VerifPathMiss      = vpPathMiss
+	VerifPathStore     = vpPathStore
+	VerifExprMiss      = vpExprMiss
+	VerifExprStore     = vpExprStore
+	VerifPoolGet       = vpPoolGet
+	VerifPoolPut       = vpPoolPut
+	VerifBufGet        = vpBufGet
+	VerifEvalEnter     = vpEvalEnter
+	VerifIncludeEnter  = vpIncludeEnter
+	VerifSerializeNode = vpSerializeNode
+	VerifLayoutIter    = vpLayoutIter
+	VerifSlotEnter     = vpSlotEnter
+	VerifNumPoints     = vpSlotEnter + 1
+)
+
+var verifHook atomic.Pointer[func(point, a, b int)]
+
+// SetVerifHook installs (or, with nil, removes) the monitor callback.
+func SetVerifHook(f func(point, a, b int)) {
+	if f == nil {
+		verifHook.Store(nil)
+		return
+	}
+	verifHook.Store(&f)
+}
+
+func verifPoint(point, a, b int) {
+	if f := verifHook.Load(); f != nil {
+		(*f)(point, a, b)
+	}
+}
